@@ -370,8 +370,15 @@ class Build:
                 if m["pk"] and op["t"] in ("recv", "irecv"):
                     ops.append({"t": "peek", "k": kk})
                 ops.append(op)
+                # the send buffer is reused as soon as the send is complete
+                if op["t"] == "send":
+                    ops.append({"t": "scribble", "ks": [op["k"]]})
+                elif op["t"] == "sendrecv" and op["ks"] != op["kr"]:
+                    ops.append({"t": "scribble", "ks": [op["ks"]]})
             if due[i]:
                 ops.append({"t": "complete", "mode": due[i][0][1], "reqs": [rq for rq, _ in due[i]]})
+                if any(w == "s" for (w, _), _ in due[i]):
+                    ops.append({"t": "scribble", "ks": [k for (w, k), _ in due[i] if w == "s"]})
         return ops
 
     # ---- abstract model
@@ -473,6 +480,8 @@ class Build:
                 d = None
                 if t == "sleep":
                     d = {"op": "sleep", "d": op["d"]}
+                elif t == "scribble":
+                    d = {"op": "p2p_fill", "bufs": ["s%d" % k for k in op["ks"]], "fill": 0xFD}
                 elif t in ("send", "isend"):
                     m = M[op["k"]]
                     d = {"op": t, "buf": "s%d" % m["k"], "count": m["count"], "type": m["tname"], "dest": m["members"].index(m["d"]),
@@ -677,13 +686,13 @@ def judge(b, res, oc, E):
         rc, err = o["rc"], o["err"]
         if kind in MULTI:
             call_has_trunc = (o["callset"], o["call"]) in trunc_in_call
-            want_rc = INSTATUS if call_has_trunc else OK
             reported = rc == INSTATUS and err == TRUNC
             if truncated and not reported:
                 bad(("trunc-rc:" if err == TRUNC else "trunc-missed:") + kind, "%s: oversized, but the call returned %s with status.MPI_ERROR = %s "
                     "(expected MPI_ERR_IN_STATUS = %s and MPI_ERR_TRUNCATE = %s)" % (where, rc, err, INSTATUS, TRUNC))
-            elif not truncated and (rc != want_rc or (call_has_trunc and err == TRUNC)):
-                bad("trunc-spurious:" + kind, "%s: the message fits, but the call returned %s with status.MPI_ERROR = %s (expected %s)" % (where, rc, err, want_rc))
+            elif not truncated and ((not call_has_trunc and rc != OK) or err == TRUNC):
+                # (when another receive of the same call IS truncated, the return code is judged there)
+                bad("trunc-spurious:" + kind, "%s: the message fits, but the call returned %s with status.MPI_ERROR = %s" % (where, rc, err))
         else:
             if truncated and rc != TRUNC:
                 bad(("trunc-rc:" if err == TRUNC else "trunc-missed:") + kind, "%s: oversized, but the call returned %s (status.MPI_ERROR = %s), "
